@@ -243,6 +243,81 @@ def run(ctx):
             res.violations.append({'what': f'operator {o}: leftmost of two errors is not the result',
                                    'input': {'formula': form}, 'expected': 'E:DIV0', 'got': got})
 
+    # (1b) totality on awkward operands, typed calls and formulas: every way a BLANK reaches an operator (the BLANK
+    # singleton of an unknown cell, a fresh Blank object — what an empty cell the model holds evaluates to —, a cell
+    # emptied with set_cell_value), and texts that a date parser chokes on (enormous date / time fields).  Only
+    # the "value or #VALUE!/#DIV/0!/#NUM!, never a Python exception" clause is demanded here.
+    awkward_texts = ['9999999999-01-01', '12:99999999999999999999', '1/1/99999999999999999999',
+                     'Jan 99999999999999999999999999', '99999999999999999999999999999999999999999999', '1-1-1-1-1-1-1',
+                     '0000-00-00', '24:61:61', '١٢', '1e999', '-1e999', '0x10', '1,5', '$3', '3%', '\x00']
+    blanks = [('singleton', ft.BLANK), ('fresh', ft.Blank(None)), ('fresh2', ft.Blank(None))]
+    others = [typed(v) for v in (0, 2.5, 'abc', '', True, False, datetime.datetime(2020, 1, 1))]
+    tcases = []
+    for o in INFIX:
+        fn = xl.FUNCTIONS[INFIX[o][0]]
+        for (na, a), (nb, b) in itertools.product(blanks, repeat=2):
+            tcases.append((o, fn, f'blank:{na}', a, f'blank:{nb}', b))
+        for nb, b in blanks:
+            for x in others:
+                tcases.append((o, fn, f'blank:{nb}', b, repr(x), x))
+                tcases.append((o, fn, repr(x), x, f'blank:{nb}', b))
+        for t in awkward_texts:
+            if o == 'POW' and numeric_text(t):
+                continue        # astronomically large powers (10^44 digits): outside what a spreadsheet can hold
+            for x in others + [ft.BLANK, ft.Text(t)]:
+                tcases.append((o, fn, repr(t), ft.Text(t), repr(x), x))
+                tcases.append((o, fn, repr(x), x, repr(t), ft.Text(t)))
+    for o, fn, na, a, nb, b in tcases:
+        real = call_real(fn, a, b)
+        res.evaluations += 1
+        res.count('op-awkward:' + o)
+        res.nontrivial.add(('awk', o, na, nb))
+        if real.startswith('X:') or (real.startswith('E:') and real not in ALLOWED_OP_ERRORS):
+            res.violations.append({'what': f'operator {o} raised or returned an unexpected error on scalar operands',
+                                   'input': {'op': o, 'left': na, 'right': nb, 'route': 'typed'},
+                                   'expected': 'a value or #VALUE!/#DIV/0!/#NUM!', 'got': real})
+    for o in ('NEG', 'PCT'):
+        fn = xl.FUNCTIONS['OP_NEG' if o == 'NEG' else 'OP_PERCENT']
+        for na, a in blanks + [(repr(t), ft.Text(t)) for t in awkward_texts]:
+            real = call_real(fn, a)
+            res.evaluations += 1
+            if real.startswith('X:') or (real.startswith('E:') and real not in ALLOWED_OP_ERRORS):
+                res.violations.append({'what': f'operator {o} raised or returned an unexpected error on a scalar operand',
+                                       'input': {'op': o, 'operand': na, 'route': 'typed'},
+                                       'expected': 'a value or #VALUE!/#DIV/0!/#NUM!', 'got': real})
+    for o in INFIX:
+        sym = INFIX[o][1]
+        # both operands empty cells that the model HOLDS (members of a range referenced elsewhere), one emptied cell
+        for how in ('in-range', 'emptied', 'emptied-vs-in-range'):
+            cells = {'Sheet1!C1': f'=A1{sym}B1', 'Sheet1!C2': f'=A1{sym}A1', 'Sheet1!C3': f'=Z9{sym}A1', 'Sheet1!C4': f'=B1{sym}7'}
+            later = {}
+            if how != 'emptied':
+                cells['Sheet1!D1'] = '=COUNTA(A1:B1)'
+            if how != 'in-range':
+                cells['Sheet1!A1'] = 5
+                later['Sheet1!A1'] = None
+            if how == 'emptied':
+                cells['Sheet1!B1'] = 'x'
+                later['Sheet1!B1'] = None
+            for probe in ('Sheet1!C1', 'Sheet1!C2', 'Sheet1!C3', 'Sheet1!C4'):
+                got = eval_cells(cells, later, probe)
+                res.evaluations += 1
+                res.count('formula-op-blank:' + how)
+                res.nontrivial.add(('fblank', o, how, probe))
+                if got.startswith('X:') or (got.startswith('E:') and got not in ALLOWED_OP_ERRORS):
+                    res.violations.append({'what': f'operator {o} on blank cells raised or returned an unexpected error',
+                                           'input': {'cells': cells, 'then_set': {k: None for k in later}, 'probe': probe},
+                                           'expected': 'a value or #VALUE!/#DIV/0!/#NUM!', 'got': got})
+        for t in awkward_texts[:8]:
+            for form, cells in ((f'="{t}"{sym}1', {}), (f'=A1{sym}1', {'Sheet1!A1': t}), (f'=1{sym}A1', {'Sheet1!A1': t})):
+                cells = dict(cells, **{'Sheet1!C1': form})
+                got = eval_cells(cells, {}, 'Sheet1!C1')
+                res.evaluations += 1
+                res.count('formula-op-awkward-text')
+                if got.startswith('X:') or (got.startswith('E:') and got not in ALLOWED_OP_ERRORS):
+                    res.violations.append({'what': f'operator {o} on a text operand raised or returned an unexpected error',
+                                           'input': {'cells': cells}, 'expected': 'a value or #VALUE!/#DIV/0!/#NUM!', 'got': got})
+
     # ---------------------------------------------------------------- (2) registered functions x position x code
     reqs, meta = [], []
     for name in sorted(xl.FUNCTIONS):
